@@ -12,6 +12,7 @@ import Rbql.Model.ParseJs
 import Rbql.Model.Translate
 import Rbql.Model.Cli
 import Rbql.Model.Variables
+import Rbql.Model.JoinResolve
 import Driver.Codec
 import Driver.EngineOps
 open Rbql Driver
@@ -166,6 +167,19 @@ def stepTranslate (ws : List String) : Option String :=
     some (match mapVariablesDirectly (decStr query) (decList names) [] with
       | .ok m => encVarMap m
       | .error _ => "err badname")
+  | ["joinresolve", inm, jm, pairs] =>
+    let decMap (t : String) : VarMap := (decTable t).map (fun r => (r.getD 0 [], { init := true, index := (String.ofList (r.getD 1 [])).toNat! }))
+    let encKeys (l : List (Option Nat)) : String := if l.isEmpty then "!" else ",".intercalate (l.map (fun o => match o with | none => "N" | some i => toString i))
+    some (match resolveJoinVariables (decMap inm) (decMap jm) [] ((decTable pairs).map (fun r => (r.getD 0 [], r.getD 1 []))) with
+      | .ok (l, r) => s!"ok {encKeys l} {encKeys r}"
+      | .error (.ambiguous _) => "err ambiguous"
+      | .error (.noInputField _) => "err no-input-field"
+      | .error (.noJoinField _) => "err no-join-field")
+  | ["exceptcols", js, inm, text] =>
+    let decMap (t : String) : VarMap := (decTable t).map (fun r => (r.getD 0 [], { init := true, index := (String.ofList (r.getD 1 [])).toNat! }))
+    some (match translateExcept (if decBool js then jsStrStrip else pyStripU) (decMap inm) [] (decStr text) with
+      | .ok l => "ok " ++ encNats l
+      | .error _ => "err unknown")
   | ["unquotestr", s] => some (match unquoteString (decStr s) with | some v => "S" ++ encStr v | none => "N")
   | _ => none
 
